@@ -80,6 +80,9 @@ type Property struct {
 	BatchTimeout func(t Tier) time.Duration
 	// Exhaustive sub-spaces flag for the evidence file.
 	Exhaustive func(t Tier) bool
+	// ChildEnv adds environment variables for the child processes (e.g. GORACE with a
+	// log_path under RunDir(ID)).
+	ChildEnv func(t Tier) []string
 }
 
 var registry = map[string]*Property{}
